@@ -233,10 +233,10 @@ func coqSeqCase(resps []exchange, ops []seqOp, so seqObs) string {
 		// literal, in pieces (a very long string literal overflows coqc's stack)
 		var ps []string
 		for len(b) > 2000 {
-			ps = append(ps, "Lit "+hk.CoqBytes(b[:2000]))
+			ps = append(ps, "Lit "+pk(b[:2000]))
 			b = b[2000:]
 		}
-		ps = append(ps, "Lit "+hk.CoqBytes(b))
+		ps = append(ps, "Lit "+pk(b))
 		return hk.CoqList(ps)
 	}
 	ref := func(b []byte) string {
@@ -272,13 +272,25 @@ func coqSeqCase(resps []exchange, ops []seqOp, so seqObs) string {
 		if len(s.CE) > 0 {
 			if e := strings.ToLower(s.CE[0]); coqEnc[e] != "" {
 				out, failed := refDecode(e, wire)
+				if s.Corrupt != "" {
+					// how many bytes a codec hands out before it reports a damaged stream depends on the
+					// read sizes (brotli keeps what is in its ring buffer): the reference decoder is
+					// driven with this response's own read schedule
+					var sizes []int
+					for _, op := range ops {
+						if op.Kind == "read" && op.I == i {
+							sizes = append(sizes, op.N)
+						}
+					}
+					out, failed = refDecodeSched(e, wire, sizes)
+				}
 				tab = append(tab, hk.CoqPair(coqEnc[e], hk.CoqPair(ref(out), hk.CoqBool(failed))))
 			}
 		}
 		parts := []string{"(C14Resp", coqStack[x.Stack], hk.CoqBool(x.Cfg.Disable), hk.CoqBool(x.Cfg.Auto),
-			hk.CoqStr(x.Req.AE), hk.CoqStr(x.Req.Range), hk.CoqBool(head), hk.CoqBool(ended),
-			hk.CoqStrList(s.CE), hk.CoqStrList(clh), hk.CoqZ(cl), ref(wireRef), hk.CoqList(tab),
-			hk.CoqStr(o.SeenAE), hk.CoqStrList(o.CE), hk.CoqStrList(o.CLH), hk.CoqZ(o.CL), hk.CoqBool(o.Unc),
+			pks(x.Req.AE), pks(x.Req.Range), hk.CoqBool(head), hk.CoqBool(ended),
+			pkList(s.CE), pkList(clh), hk.CoqZ(cl), ref(wireRef), hk.CoqList(tab),
+			pks(o.SeenAE), pkList(o.CE), pkList(o.CLH), hk.CoqZ(o.CL), hk.CoqBool(o.Unc),
 			ref(o.Body) + ")"}
 		rs = append(rs, strings.Join(parts, " "))
 	}
@@ -351,6 +363,7 @@ type seqGen struct {
 	ops   []seqOp
 	open  []int // responses currently open and not closed
 	shape string
+	theme int // index into codings[:4]: most decoded responses of a sequence use the same coding
 }
 
 // newResp picks a response that this client decodes (mostly) or leaves alone.
@@ -361,7 +374,12 @@ func (q *seqGen) newResp(wantDecoded bool, size int) int {
 	k := reqKinds[0]
 	switch {
 	case wantDecoded && q.cl.cfg.Auto:
-		c = codings[[]int{0, 0, 0, 1, 2, 3}[rng.Intn(6)]]
+		// state carried from one response to another would be carried between readers of one type:
+		// mostly the sequence's theme coding, sometimes another one
+		c = codings[q.theme]
+		if rng.Chance(25) {
+			c = codings[rng.Intn(4)]
+		}
 		if q.cl.stack == "h1" && c.class == "gzip" && rng.Chance(70) {
 			k = reqKinds[1] // caller Accept-Encoding: the transport did not ask, AutoDecompression decodes (compress.GzipReader)
 		}
@@ -521,9 +539,12 @@ func (q *seqGen) random(total int) {
 
 func (g *gen) runSeqs() {
 	r, rng := g.r, g.rng.Fork()
-	nseq := r.Scale(130, 1500)
+	nseq := r.Scale(160, 1500)
 	for n := 0; n < nseq; n++ {
-		q := &seqGen{g: g, rng: rng, cl: seqClients[n%len(seqClients)]}
+		q := &seqGen{g: g, rng: rng, cl: seqClients[n%len(seqClients)], theme: (n / len(seqClients)) % 4}
+		if n%3 == 0 {
+			q.theme = 0 // gzip has two reader types (transport.go gzipReader, compress.GzipReader): more of it
+		}
 		switch n % 5 {
 		case 0, 1: // close twice (or three times), then two or three bodies at once
 			q.shape = "reclose-then-group"
@@ -555,6 +576,9 @@ func (g *gen) oneSeq(q *seqGen) {
 	so := g.w.runSeq(q.resps, q.ops)
 	r.Count("seq.shape=" + q.shape)
 	r.Count("seq.client=" + q.cl.stack + "/" + q.cl.cfg.name())
+	if q.cl.cfg.Auto {
+		r.Count("seq.theme=" + codings[q.theme].class)
+	}
 	r.Count(fmt.Sprintf("seq.responses=%d", len(q.resps)))
 	maxOpen, cur, reclose := 0, 0, 0
 	closed := map[int]int{}
